@@ -80,6 +80,21 @@ func init() {
 	})
 }
 
+// marshalOwned returns a private copy of a MarshalBinary result and then scribbles on
+// the slice the library returned: marshalled bytes belong to the caller (who may flip
+// bits in place to build a negative test, or reuse the buffer), so nothing the library
+// keeps may share memory with them.
+func marshalOwned(b []byte, err error) []byte {
+	if err != nil {
+		return []byte("marshal-error:" + err.Error())
+	}
+	own := clone(b)
+	for i := range b {
+		b[i] ^= 0xff
+	}
+	return own
+}
+
 func srMulBase(sLE []byte) []byte {
 	s, err := scalar.NewFromCanonicalBytes(sLE)
 	if err != nil {
@@ -345,7 +360,7 @@ func runC12(e *Env, r *core.Run) {
 		if err != nil {
 			panic("harness: mini")
 		}
-		skb := mustMarshal(m.ExpandUniform().MarshalBinary())
+		skb := marshalOwned(m.ExpandUniform().MarshalBinary())
 		sk, err := sr25519.NewSecretKeyFromBytes(skb)
 		if err != nil {
 			r.Fail("encoding", "secret-key-roundtrip", "a marshalled secret key was refused: %v", err)
@@ -355,9 +370,9 @@ func runC12(e *Env, r *core.Run) {
 		skm = model.SrExpandUniform(mini)
 	}
 	pkm := srMulBase(skm.Key)
-	skb := mustMarshal(kp.SecretKey().MarshalBinary())
-	pkb := mustMarshal(kp.PublicKey().MarshalBinary())
-	kpb := mustMarshal(kp.MarshalBinary())
+	skb := marshalOwned(kp.SecretKey().MarshalBinary())
+	pkb := marshalOwned(kp.PublicKey().MarshalBinary())
+	kpb := marshalOwned(kp.MarshalBinary())
 	r.Ev("key route=%d sk=%s pk=%s", route, core.Hex8(skb), core.Hex8(pkb))
 	if !bytes.Equal(skb, skm.Bytes()) {
 		r.Fail("exactness", "secret-key", "route %d: secret key %x, schnorrkel model gives %x", route, skb, skm.Bytes())
@@ -371,7 +386,7 @@ func runC12(e *Env, r *core.Run) {
 		r.Fail("encoding", "keypair-layout", "KeyPair.MarshalBinary is not secret||public")
 		return
 	}
-	if kp2, err := sr25519.NewKeyPairFromBytes(kpb); err != nil || !bytes.Equal(mustMarshal(kp2.MarshalBinary()), kpb) {
+	if kp2, err := sr25519.NewKeyPairFromBytes(kpb); err != nil || !bytes.Equal(marshalOwned(kp2.MarshalBinary()), kpb) {
 		r.Fail("encoding", "keypair-roundtrip", "a marshalled key pair does not round-trip (err=%v)", err)
 		return
 	}
@@ -381,7 +396,7 @@ func runC12(e *Env, r *core.Run) {
 	mini2 := g.Bytes(32)
 	m2, _ := sr25519.NewMiniSecretKeyFromBytes(mini2)
 	kp2 := m2.ExpandUniform().KeyPair()
-	pkb2 := mustMarshal(kp2.PublicKey().MarshalBinary())
+	pkb2 := marshalOwned(kp2.PublicKey().MarshalBinary())
 	// mismatched key pair must be refused
 	if t.W(3) == 0 {
 		bad := append(clone(skb), pkb2...)
@@ -395,7 +410,7 @@ func runC12(e *Env, r *core.Run) {
 	// wrong lengths: each of the four encodings must be refused when truncated or extended
 	{
 		nontrivial = true
-		enc := [][]byte{pkb, skb, kpb, mustMarshal((&sr25519.MiniSecretKey{}).MarshalBinary())}
+		enc := [][]byte{pkb, skb, kpb, marshalOwned((&sr25519.MiniSecretKey{}).MarshalBinary())}
 		names := []string{"PublicKey", "SecretKey", "KeyPair", "MiniSecretKey"}
 		which := t.W(4)
 		b := clone(enc[which])
@@ -460,11 +475,11 @@ func runC12(e *Env, r *core.Run) {
 			r.Fail("encoding", "secretkey-decoder-accepted-"+kind, "SecretKey decoding accepted an encoding with %s", kind)
 			return
 		}
-		if serr == nil && !bytes.Equal(mustMarshal(sk.MarshalBinary()), b[:64]) {
+		if serr == nil && !bytes.Equal(marshalOwned(sk.MarshalBinary()), b[:64]) {
 			r.Fail("encoding", "secret-key-remarshal", "an accepted secret key re-marshals to different bytes")
 			return
 		}
-		if kerr == nil && !bytes.Equal(mustMarshal(kpx.MarshalBinary()), b) {
+		if kerr == nil && !bytes.Equal(marshalOwned(kpx.MarshalBinary()), b) {
 			r.Fail("encoding", "keypair-remarshal", "an accepted key pair re-marshals to different bytes")
 			return
 		}
@@ -552,7 +567,7 @@ func runC12(e *Env, r *core.Run) {
 			r.Fail("exactness", "sign-entropy", "KeyPair.Sign: err=%v after %d delivered entropy bytes (want 32)", err, len(ent.Delivered))
 			return
 		}
-		sigb := mustMarshal(sig.MarshalBinary())
+		sigb := marshalOwned(sig.MarshalBinary())
 		want := model.SrSign(src.model(), skm, pkb, ent.Delivered, srMulBase)
 		r.Count(c12signs)
 		r.Ev("sign src=%d/%d ctx=%s msg=%s -> %s", src.kind, src.hsel, core.Hex8(src.ctx), core.Hex8(src.msg), core.Hex8(sigb))
@@ -561,7 +576,7 @@ func runC12(e *Env, r *core.Run) {
 			return
 		}
 		// signing must not disturb the key pair (the nonce goes through STROBE KEY)
-		if !bytes.Equal(mustMarshal(kp.MarshalBinary()), kpb) {
+		if !bytes.Equal(marshalOwned(kp.MarshalBinary()), kpb) {
 			r.Fail("caller-object", "keypair-changed-by-signing", "the key pair's marshalled form changed after signing")
 			return
 		}
@@ -687,14 +702,14 @@ func runC12(e *Env, r *core.Run) {
 		}
 		if serr == nil {
 			r.Count(c12remarshal)
-			if !bytes.Equal(mustMarshal(lsig.MarshalBinary()), tp.sig) {
+			if !bytes.Equal(marshalOwned(lsig.MarshalBinary()), tp.sig) {
 				r.Fail("encoding", "signature-remarshal", "an accepted signature re-marshals to different bytes")
 				return
 			}
 		}
 		if perr == nil {
 			r.Count(c12remarshal)
-			if !bytes.Equal(mustMarshal(lpk.MarshalBinary()), tp.pk) {
+			if !bytes.Equal(marshalOwned(lpk.MarshalBinary()), tp.pk) {
 				r.Fail("encoding", "public-key-remarshal", "an accepted public key re-marshals to different bytes")
 				return
 			}
